@@ -12,12 +12,13 @@ PID = 'C05'
 
 META = {
     'functions_encoded': ['pydl.pydlutils.spheregroup.groups.__init__', 'pydl.pydlutils.spheregroup.chunks.friendsoffriends',
-                          'pydl.pydlutils.spheregroup.chunks.chunkfriendsoffriends', 'pydl.pydlutils.spheregroup.spheregroup (renumbering, list rebuild)'],
+                          'pydl.pydlutils.spheregroup.chunks.chunkfriendsoffriends', 'chunks.__init__ / rarange / assign / getbounds (margin obligations)', 'pydl.pydlutils.spheregroup.spheregroup (renumbering, list rebuild)'],
     'stubs': ['gcirc -> D[i][j]: an arbitrary symmetric non-negative real matrix with zero diagonal (the separation of points i and j)',
               'chunks.__init__ / chunks.assign -> arbitrary symbolic point-in-chunk membership constrained by the margin invariant '
               '(every point in >= 1 chunk; every linked pair shares >= 1 chunk); numpy.deg2rad -> identity'],
-    'assumptions': ['the margin invariant that chunks.assign is meant to establish is ASSUMED, not shown (needs trigonometry)'],
-    'outside_bounds': 'chunk geometry (RA seam, chunk edges, poles): a defect confined to chunks.__init__/assign/getbounds is not seen; '
+    'assumptions': ['grouping obligations ASSUME the margin invariant of chunks.assign; the margin obligations show it on the real chunks class in its '
+                    'box metric (Dec and RA cos Dec) for symbolic right ascensions; the trigonometric step from separation to that box is not shown'],
+    'outside_bounds': 'the spherical-geometry lemma linking great-circle separation to the box metric; margin obligations: 3 points at concrete declinations, 4 configurations; '
                       'more than 6 points (single chunk) / 4 points x 3 chunks',
 }
 
@@ -227,13 +228,65 @@ def ob_chain(npts, labelling):
                       bounds='a %d-point chain over %d chunks, every visiting order of the chunks' % (npts, npts), max_paths=400000, max_seconds=1700)
 
 
+# ------------------------------------------------------------------ the margin invariant of the real chunks class
+SELF_CONFIGS = {
+    # name: (declinations, chunk size, linking length, RA window)
+    'equator-seam': ([0, 0, 5], 120, 20, 'seam'),
+    'equator': ([0, 0, 5], 120, 20, None),
+    'band-80': ([-10, 10, 0], 80, 20, None),
+    'polar': ([80, 85, 75], 40, 8, None),
+}
+
+
+def ob_margin(name):
+    """what the grouping obligations ASSUME about chunks.assign is shown here on the real class, for symbolic
+    right ascensions: every point is listed in at least one chunk, and two points within the linking length
+    in Dec and in RA cos Dec (across the RA seam too) are listed together in at least one chunk."""
+    from fractions import Fraction as F
+    dec, minsize, margin, window = SELF_CONFIGS[name]
+
+    def fn(ctx):
+        import math
+        import pydl.pydlutils.spheregroup as sg
+        n = len(dec)
+        ra = [ctx.real('ra%d' % i) for i in range(n)]
+        for v in ra:
+            ctx.add(z3.And(zt(v) >= 0, zt(v) < 360))
+            if window == 'seam':
+                ctx.add(z3.Or(zt(v) < 12, zt(v) >= 348))
+        d = {'fn': 'margin', 'config': name}
+        ctx.detail = d
+        chunk = sg.chunks(symnp.rarray(ra), symnp.rarray([F(x) for x in dec]), R(F(minsize)))
+        chunk.assign(symnp.rarray(ra), symnp.rarray([F(x) for x in dec]), R(F(margin)))
+        cells = [[set(int(k) for k in cell) for cell in row] for row in chunk.chunkList]
+        flat = [c for row in cells for c in row]
+        for i in range(n):
+            ctx.require(any(i in c for c in flat), 'chunks.assign: every point is listed in at least one chunk', dict(d, i=i))
+        for i in range(n):
+            for k in range(i + 1, n):
+                shared = any(i in c and k in c for c in flat)
+                if shared:
+                    continue
+                dra = zt(ra[i]) - zt(ra[k])
+                dra = z3.If(dra >= 0, dra, -dra)
+                circ = z3.If(dra <= 180, dra, 360 - dra)
+                cmax = max(math.cos(math.radians(dec[i])), math.cos(math.radians(dec[k])))
+                near = z3.And(abs(dec[i] - dec[k]) < margin, circ * zt(R(core._frac(cmax))) < margin)
+                ctx.require(z3.Not(near), 'chunks.assign: two points within the linking length (in Dec and in RA cos Dec, also across the RA seam) '
+                            'share at least one chunk', dict(d, i=i, k=k))
+        ctx.require(zt(ra[0]) == zt(ra[0]), 'symbolic touch')
+    return Obligation('chunk margin invariant %s' % name, fn, bounds='%d points at Dec %s, every RA%s, chunk size %s, linking length %s'
+                      % (len(dec), dec, ' within 12 deg of the seam' if window else '', minsize, margin), max_paths=400000, max_seconds=1700)
+
+
 def obligations(tier, seed):
     if tier == 'quick':
         return [ob_groups(2), ob_groups(3), ob_groups(4), ob_groups(5), ob_spheregroup(2, 2), ob_spheregroup(3, 2),
-                ob_chain(5, (0, 1, 2, 3, 4)), ob_chain(6, (5, 0, 4, 1, 3, 6))]
+                ob_chain(5, (0, 1, 2, 3, 4)), ob_chain(6, (5, 0, 4, 1, 3, 6)), ob_margin('equator-seam')]
     return [ob_groups(n) for n in (2, 3, 4, 5, 6)] + [ob_spheregroup(2, 2), ob_spheregroup(3, 2), ob_spheregroup(3, 3),
                                                      ob_spheregroup(4, 2), ob_chain(5, (0, 1, 2, 3, 4)), ob_chain(6, (5, 0, 4, 1, 3, 6)),
-                                                     ob_chain(6, (0, 1, 2, 3, 4, 5)), ob_chain(7, (3, 0, 6, 1, 5, 2, 7)), ob_chain(6, (2, 6, 0, 5, 1, 4))]
+                                                     ob_chain(6, (0, 1, 2, 3, 4, 5)), ob_chain(7, (3, 0, 6, 1, 5, 2, 7)), ob_chain(6, (2, 6, 0, 5, 1, 4))] + \
+        [ob_margin(name) for name in SELF_CONFIGS]
 
 
 # ------------------------------------------------------------------ replay
@@ -247,6 +300,26 @@ def replay(rec):
     import pydl.pydlutils.spheregroup as sg
     d = rec['detail'] or {}
     inp = rec['inputs'] or {}
+    if d.get('fn') == 'margin':
+        import math
+        dec, minsize, margin, window = SELF_CONFIGS[d['config']]
+        n = len(dec)
+        ra = np.array([_f(inp.get('ra%d' % i, 0)) for i in range(n)])
+        de = np.array([float(x) for x in dec])
+        chunk = sg.chunks(ra, de, float(minsize))
+        chunk.assign(ra, de, float(margin))
+        flat = [set(c) for row in chunk.chunkList for c in row]
+        if not all(any(i in c for c in flat) for i in range(n)):
+            return True
+        m = float(margin) * (1 - 1e-9)
+        for i in range(n):
+            for k in range(i + 1, n):
+                dra = abs(ra[i] - ra[k])
+                circ = min(dra, 360.0 - dra)
+                cmax = max(math.cos(math.radians(dec[i])), math.cos(math.radians(dec[k])))
+                if abs(dec[i] - dec[k]) < m and circ * cmax < m and not any(i in c and k in c for c in flat):
+                    return True
+        return False
     n = d.get('n', 0)
     L = _f(inp['L'])
     D = np.zeros((n, n))
